@@ -106,6 +106,7 @@ class Scheduler:
         self.lockfd = None
         self.auto_released = 0
         self.state_hashes = set()
+        self.last_run = {}
 
     # -- process bookkeeping ---------------------------------------------------
     def lid_for_new(self, pid, ppid):
@@ -246,16 +247,26 @@ class Scheduler:
         return out
 
     def quiescent_sample(self):
-        """True if every live process is parked or blocked in the kernel."""
+        """True if every live process is parked at a gate or legitimately blocked in the kernel.
+
+        A process that never spoke to the scheduler (sh running builtins, cat, tr, printf, a subshell)
+        cannot be a reason to wait: it is accepted only while it waits for a live child.  Hooked
+        processes (redo binaries, the shell of a job -- same pid as the job's child-start) may also
+        block reading a pipe or polling (redo waiting for redo-log's ack, redo-log reading its stdin)."""
         self.reap()
         parked = {p.pid for p in self.procs.values() if p.gate is not None and not p.dead}
+        info = {}
         for pid in self.live_pids():
             st = proc_stat(pid)
-            if st is None:
-                continue
-            state = st[0]
+            if st is not None:
+                info[pid] = st
+        live_children = {}
+        for pid, (state, ppid) in info.items():
+            if state not in ("Z", "X"):
+                live_children[ppid] = live_children.get(ppid, 0) + 1
+        for pid, (state, ppid) in info.items():
             if state in ("Z", "X"):
-                if st[1] == 1:
+                if ppid == 1:
                     return False   # our own child: reap first
                 continue           # a zombie whose parent has not collected it yet: the parent decides
             if pid in parked:
@@ -265,7 +276,11 @@ class Scheduler:
             sc = proc_syscall(pid)
             if sc == "running" or sc is None:
                 return False
-            if sc in SYS_WAIT or sc in SYS_READ or sc in SYS_POLL or sc in SYS_PAUSE or sc in SYS_WRITE:
+            if sc in SYS_WAIT:
+                if live_children.get(pid, 0) > 0:
+                    continue
+                return False       # waiting although every child is gone: it is about to continue
+            if pid in self.procs and (sc in SYS_READ or sc in SYS_POLL or sc in SYS_PAUSE or sc in SYS_WRITE):
                 continue
             return False
         return True
@@ -280,8 +295,9 @@ class Scheduler:
                 continue
             if self.quiescent_sample():
                 stable += 1
-                if stable >= 2 and not self.pump(0):
+                if stable >= 3 and not self.pump(0):
                     return
+                time.sleep(0.0001)
             else:
                 stable = 0
                 time.sleep(0.0002)
@@ -364,10 +380,11 @@ class Scheduler:
         return out
 
     # -- running -----------------------------------------------------------------
-    def start_root(self, name, argv, cwd, env):
+    def start_root(self, name, argv, cwd, env, pass_fds=()):
         so = open(os.path.join(self.workdir, "out.%s" % name), "wb")
         se = open(os.path.join(self.workdir, "err.%s" % name), "wb")
-        pop = subprocess.Popen(argv, cwd=cwd, env=env, stdin=subprocess.DEVNULL, stdout=so, stderr=se)
+        pop = subprocess.Popen(argv, cwd=cwd, env=env, stdin=subprocess.DEVNULL, stdout=so, stderr=se,
+                               pass_fds=tuple(pass_fds))
         so.close()
         se.close()
         lid = name
@@ -398,6 +415,14 @@ class Scheduler:
                 break
             choices = self.enabled_choices()
             if not choices:
+                # double-check before calling it a deadlock: give the tree real time, look again
+                time.sleep(0.05)
+                self.wait_quiescent()
+                choices = self.enabled_choices()
+                live = [pid for pid in self.live_pids() if (proc_stat(pid) or ("Z", 0))[0] not in ("Z", "X")]
+                if not live:
+                    break
+            if not choices:
                 verdict = "deadlock"
                 self.flags["deadlock"] = self.describe_tree()
                 break
@@ -424,7 +449,9 @@ class Scheduler:
                         default = i
                         break
             if default is None:
-                default = 0
+                # only timers / polls are enabled: be fair among them (least recently run first), so that a
+                # polling follower cannot starve a process whose timer is about to fire, and vice versa
+                default = min(range(len(choices)), key=lambda i: (self.last_run.get(choices[i][0], -1), i))
             idx = self.chooser(self.step_no, choices, default)
             if idx is None:
                 idx = default
@@ -437,6 +464,7 @@ class Scheduler:
             p = self.procs[pid]
             p.gate = None
             self.last_lid = lid
+            self.last_run[lid] = self.step_no
             self.step_no += 1
             if kind == "select":
                 self.send(p, "go " + ("timer" if label == "timer" else "io"))
